@@ -485,6 +485,12 @@ func pruneEntries(p geom.Point, entries []entry, minDists []float64) []entry {
 	minMinMaxDist := math.MaxFloat64
 	for i := range entries {
 		minMaxDist := minMaxDist(p, entries[i].bb)
+		if minMaxDist < minDists[i] {
+			// MINMAXDIST is never below MINDIST; for a degenerate box the two
+			// coincide and rounding can put the computed values the wrong way
+			// round, which would prune the entry by its own bound.
+			minMaxDist = minDists[i]
+		}
 		if minMaxDist < minMinMaxDist {
 			minMinMaxDist = minMaxDist
 		}
